@@ -62,6 +62,13 @@ func (b BoolOrStruct[T]) IsNil() bool {
 	return !b.isBool && isZero(b.structValue)
 }
 
+// IsZero reports whether the value is unset. yaml.v3 consults it for omitempty;
+// without it a struct that only has unexported fields always counts as empty and
+// the field is dropped from every marshalled document.
+func (b BoolOrStruct[T]) IsZero() bool {
+	return b.IsNil()
+}
+
 // UnmarshalYAML implements yaml.Unmarshaler.
 func (b *BoolOrStruct[T]) UnmarshalYAML(node *yaml.Node) error {
 	// Handle null/nil explicitly
